@@ -998,6 +998,36 @@ static int rtr_update_spki_table(struct rtr_socket *rtr_socket, struct spki_tabl
 	return RTR_SUCCESS;
 }
 
+/*
+ * @brief Undoes the first ipv4_count/ipv6_count/router_key_count already applied PDUs in reverse order of their
+ * application, so that every step exactly inverts the most recent remaining change (a response may announce and
+ * withdraw the same record). If a step fails, all records of the socket are purged from both tables and the
+ * session is reset, so that the next query is a Reset Query.
+ */
+static void rtr_undo_applied_updates(struct rtr_socket *rtr_socket, struct pfx_table *pfx_table,
+				     struct spki_table *spki_table, struct pdu_ipv4 *ipv4_pdus,
+				     unsigned int ipv4_count, struct pdu_ipv6 *ipv6_pdus, unsigned int ipv6_count,
+				     struct pdu_router_key *router_key_pdus, unsigned int router_key_count)
+{
+	bool failed = false;
+
+	for (unsigned int j = router_key_count; j > 0 && !failed; j--)
+		failed = rtr_undo_update_spki_table(rtr_socket, spki_table, &(router_key_pdus[j - 1])) != SPKI_SUCCESS;
+	for (unsigned int j = ipv6_count; j > 0 && !failed; j--)
+		failed = rtr_undo_update_pfx_table(rtr_socket, pfx_table, &(ipv6_pdus[j - 1])) != PFX_SUCCESS;
+	for (unsigned int j = ipv4_count; j > 0 && !failed; j--)
+		failed = rtr_undo_update_pfx_table(rtr_socket, pfx_table, &(ipv4_pdus[j - 1])) != PFX_SUCCESS;
+
+	if (failed) {
+		RTR_DBG1("Couldn't undo all update operations from failed data synchronisation: Purging all records");
+		pfx_table_src_remove(rtr_socket->pfx_table, rtr_socket);
+		spki_table_src_remove(rtr_socket->spki_table, rtr_socket);
+		rtr_socket->request_session_id = true;
+		rtr_socket->serial_number = 0;
+		rtr_socket->last_update = 0;
+	}
+}
+
 void recv_loop_cleanup(void *p)
 {
 	struct recv_loop_cleanup_args *args = p;
@@ -1186,15 +1216,9 @@ static int rtr_sync_receive_and_store_pdus(struct rtr_socket *rtr_socket)
 					// undo all record updates, except the last which produced the error
 					RTR_DBG("Error during data synchronisation, recovering Serial Nr. %u state",
 						rtr_socket->serial_number);
-					for (unsigned int j = 0; j < i && retval == PFX_SUCCESS; j++)
-						retval = rtr_undo_update_pfx_table(rtr_socket, pfx_update_table,
-										   &(ipv4_pdus[j]));
-					if (retval == RTR_ERROR) {
-						RTR_DBG1(
-							"Couldn't undo all update operations from failed data synchronisation: Purging all records");
-						pfx_table_src_remove(rtr_socket->pfx_table, rtr_socket);
-						rtr_socket->request_session_id = true;
-					}
+					if (!rtr_socket->is_resetting)
+						rtr_undo_applied_updates(rtr_socket, pfx_update_table, spki_update_table,
+									 ipv4_pdus, i, ipv6_pdus, 0, router_key_pdus, 0);
 					rtr_change_socket_state(rtr_socket, RTR_ERROR_FATAL);
 					retval = RTR_ERROR;
 					goto cleanup;
@@ -1207,18 +1231,10 @@ static int rtr_sync_receive_and_store_pdus(struct rtr_socket *rtr_socket)
 					// undo all record updates if error occurred
 					RTR_DBG("Error during data synchronisation, recovering Serial Nr. %u state",
 						rtr_socket->serial_number);
-					for (unsigned int j = 0; j < ipv4_pdus_nindex && retval == PFX_SUCCESS; j++)
-						retval = rtr_undo_update_pfx_table(rtr_socket, pfx_update_table,
-										   &(ipv4_pdus[j]));
-					for (unsigned int j = 0; j < i && retval == PFX_SUCCESS; j++)
-						retval = rtr_undo_update_pfx_table(rtr_socket, pfx_update_table,
-										   &(ipv6_pdus[j]));
-					if (retval == PFX_ERROR) {
-						RTR_DBG1(
-							"Couldn't undo all update operations from failed data synchronisation: Purging all records");
-						pfx_table_src_remove(rtr_socket->pfx_table, rtr_socket);
-						rtr_socket->request_session_id = true;
-					}
+					if (!rtr_socket->is_resetting)
+						rtr_undo_applied_updates(rtr_socket, pfx_update_table, spki_update_table,
+									 ipv4_pdus, ipv4_pdus_nindex, ipv6_pdus, i,
+									 router_key_pdus, 0);
 					rtr_change_socket_state(rtr_socket, RTR_ERROR_FATAL);
 					retval = RTR_ERROR;
 					goto cleanup;
@@ -1232,24 +1248,10 @@ static int rtr_sync_receive_and_store_pdus(struct rtr_socket *rtr_socket)
 				    SPKI_ERROR) {
 					RTR_DBG("Error during router key data synchronisation, recovering Serial Nr. %u state",
 						rtr_socket->serial_number);
-					for (unsigned int j = 0; j < ipv4_pdus_nindex && retval == PFX_SUCCESS; j++)
-						retval = rtr_undo_update_pfx_table(rtr_socket, pfx_update_table,
-										   &(ipv4_pdus[j]));
-					for (unsigned int j = 0; j < ipv6_pdus_nindex && retval == PFX_SUCCESS; j++)
-						retval = rtr_undo_update_pfx_table(rtr_socket, pfx_update_table,
-										   &(ipv6_pdus[j]));
-					for (unsigned int j = 0;
-					// cppcheck-suppress duplicateExpression
-					     j < i && (retval == PFX_SUCCESS || retval == SPKI_SUCCESS); j++)
-						retval = rtr_undo_update_spki_table(rtr_socket, spki_update_table,
-										    &(router_key_pdus[j]));
-					// cppcheck-suppress duplicateExpression
-					if (retval == RTR_ERROR || retval == SPKI_ERROR) {
-						RTR_DBG1(
-							"Couldn't undo all update operations from failed data synchronisation: Purging all key entries");
-						spki_table_src_remove(spki_update_table, rtr_socket);
-						rtr_socket->request_session_id = true;
-					}
+					if (!rtr_socket->is_resetting)
+						rtr_undo_applied_updates(rtr_socket, pfx_update_table, spki_update_table,
+									 ipv4_pdus, ipv4_pdus_nindex, ipv6_pdus,
+									 ipv6_pdus_nindex, router_key_pdus, i);
 					rtr_change_socket_state(rtr_socket, RTR_ERROR_FATAL);
 					retval = RTR_ERROR;
 					goto cleanup;
